@@ -57,23 +57,27 @@ theorem grammar_unambiguous {dec sci : Char} (hs : SaneChars dec sci) (p q : Dec
   have h2 := parseDecimal_complete hs q hq
   rw [h] at h1; rw [h1] at h2; exact Option.some.inj h2
 
-/-- `toDouble` returns the value the grammar assigns (as a rational, before strtod's rounding) -/
-theorem toDouble_value {sci : Char} (hsci : sci = 'e' ∨ sci = 'E') (p : DecParts) (hwf : p.WF) :
-    toDouble '.' sci (p.render '.' sci) = some p.value := by
-  have hs : SaneChars '.' sci := by rcases hsci with rfl | rfl <;> (unfold SaneChars; decide)
+/-- `toDouble` returns the value the grammar assigns (as a rational, before strtod's rounding),
+whatever usable decimal separator and exponent character the caller chose (the full statement,
+since the repair "fix: TextTools::toDouble validated with the caller's decimal separator …") -/
+theorem toDouble_value {dec sci : Char} (hs : SaneChars dec sci) (p : DecParts) (hwf : p.WF) :
+    toDouble dec sci (p.render dec sci) = some p.value := by
   have hp := parseDecimal_complete hs p hwf
-  have hacc : isDecimalNumber '.' sci (p.render '.' sci) = true := by
+  have hacc : isDecimalNumber dec sci (p.render dec sci) = true := by
     rw [isDecimalNumber_eq_parse hs, hp]; rfl
-  simp [toDouble, hacc, streamDouble_of_parse hsci hp]
+  have hs' : SaneChars '.' 'e' := by unfold SaneChars; decide
+  have hp' := parseDecimal_complete hs' p hwf
+  simp [toDouble, hacc, map_trChar_render hs p hwf, streamDouble_of_parse (Or.inl rfl) hp']
 
-/-- FULL statement `toDouble dec sci (p.render dec sci) = some p.value` for arbitrary usable `dec`,
-`sci` is FALSE of the code (finding C17-todouble-ignores-custom-chars): the stream only knows `.`
-and `e`/`E`.  Witness: "1,5" with separator `,` is accepted, its value is 3/2, `toDouble` gives 1. -/
+example : SaneChars ',' 'x' ∧ SaneChars 'e' '.' := by unfold SaneChars; decide
+
+/-- the code before that repair handed the accepted text to the stream as it was: "1,5" with
+separator `,` is accepted, its value is 3/2, the conversion gave 1 -/
 theorem toDouble_custom_separator_witness :
     (⟨false, ['1'], true, ['5'], none⟩ : DecParts).WF ∧
     (⟨false, ['1'], true, ['5'], none⟩ : DecParts).render ',' 'e' = ['1', ',', '5'] ∧
     (⟨false, ['1'], true, ['5'], none⟩ : DecParts).value = 3 / 2 ∧
-    toDouble ',' 'e' ['1', ',', '5'] = some 1 := by
+    toDoubleNoTr ',' 'e' ['1', ',', '5'] = some 1 := by
   have hs : SaneChars ',' 'e' := by unfold SaneChars; decide
   have hwf : (⟨false, ['1'], true, ['5'], none⟩ : DecParts).WF := by
     refine ⟨?_, ?_, ?_, ?_, ?_⟩ <;> simp [AllDigits, isDigit]
@@ -82,7 +86,7 @@ theorem toDouble_custom_separator_witness :
   refine ⟨hwf, rfl, ?_, ?_⟩
   · simp [DecParts.value, mkValue, digitsVal, digitVal, pow10]
     norm_num
-  · simp only [toDouble, hacc, if_true]
+  · simp only [toDoubleNoTr, hacc, if_true]
     simp [streamDouble, streamUnsigned, streamTail, isDigit, List.takeWhile, List.dropWhile, mkValue, digitsVal,
       digitVal, pow10]
 
